@@ -207,7 +207,10 @@ let roundtrip_oracle k r lines =
           else bump "roundtrip-noncanonical-names(rewrite-not-judged)"
         | _ -> Printf.printf "FAIL %d roundtrip-fields undumpable written=[%s] reparsed=[%s]\n" k r (after "0 " v))
      | [v] ->
-       let kind = match dr with Some a when record_text_unparseable a -> "roundtrip-text-unparseable" | _ -> "roundtrip-reparse" in
+       let kind = match dr with
+         | Some a when List.length a.d_qd <> 1 -> "roundtrip-question-count"
+         | Some a when record_text_unparseable a -> "roundtrip-text-unparseable"
+         | _ -> "roundtrip-reparse" in
        Printf.printf "FAIL %d %s status=%s written=[%s]\n" k kind v wbytes
      | _ -> Printf.printf "FAIL %d roundtrip-reparse no reparse line\n" k)
   | [_] -> bump "roundtrip-write-refused"
